@@ -134,6 +134,22 @@ func table() []mech {
 			return config.MechanismConfig{"metadata_endpoint": map[string]any{"url": remote.URL() + "/.well-known/openid-configuration", "http_cache": map[string]any{"enabled": false}},
 				"assertions": m(`{"audience":["api"]}`), "cache_ttl": "0s"}
 		}, Overrides: []map[string]any{m(`{"assertions":{"audience":["other"]}}`), m(`{"assertions":{"scopes":["admin"]}}`)}, Headers: bearer},
+		{Name: "jwt_metadata_custom_headers", Category: "authenticator", Type: "jwt", Proto: func() config.MechanismConfig {
+			// custom headers without Accept: the default Accept header is added per request, never to the shared configuration
+			return config.MechanismConfig{"metadata_endpoint": map[string]any{"url": remote.URL() + "/.well-known/openid-configuration", "headers": map[string]any{"X-Tenant": "t"},
+				"http_cache": map[string]any{"enabled": false}}, "assertions": m(`{"audience":["api"]}`), "cache_ttl": "0s"}
+		}, Overrides: []map[string]any{m(`{"assertions":{"audience":["other"]}}`), m(`{"assertions":{"scopes":["read"]}}`)}, Headers: bearer},
+		{Name: "introspection_metadata_custom_headers", Category: "authenticator", Type: "oauth2_introspection", Proto: func() config.MechanismConfig {
+			return config.MechanismConfig{"metadata_endpoint": map[string]any{"url": remote.URL() + "/.well-known/oauth-authorization-server",
+				"headers": map[string]any{"X-Tenant": "t", "Accept": "application/json"}, "http_cache": map[string]any{"enabled": false}}, "cache_ttl": "0s"}
+		}, Overrides: []map[string]any{m(`{"assertions":{"scopes":["admin"]}}`), m(`{"assertions":{"audience":["api"]}}`)},
+			Headers: []vkit.HeaderKV{{Name: "Authorization", Value: "Bearer opaque-3"}}},
+		{Name: "introspection_no_endpoint_headers", Category: "authenticator", Type: "oauth2_introspection", Proto: func() config.MechanismConfig {
+			a := m(`{"audience":["api"]}`)
+			a["issuers"] = []any{issuer()}
+
+			return config.MechanismConfig{"introspection_endpoint": map[string]any{"url": remote.URL() + "/introspect"}, "assertions": a, "cache_ttl": "0s"}
+		}, Overrides: []map[string]any{m(`{"assertions":{"scopes":["read"]}}`)}, Headers: []vkit.HeaderKV{{Name: "Authorization", Value: "Bearer opaque-4"}}},
 		{Name: "introspection", Category: "authenticator", Type: "oauth2_introspection", Proto: func() config.MechanismConfig {
 			a := m(`{"audience":["api"]}`)
 			a["issuers"] = []any{issuer()}
@@ -219,34 +235,43 @@ func buildWorld(tab []mech, refs []ruleRef) (*vkit.World, error) {
 	}
 
 	for _, ref := range refs {
-		mc := tab[ref.Mech]
-		step := config.MechanismConfig{mc.Category: fmt.Sprintf("m%d", ref.Mech)}
-
-		if ref.Variant >= 0 {
-			step["config"] = deepCopy(mc.Overrides[ref.Variant])
-		}
-
-		r := rulecfg.Rule{ID: ref.path(), Matcher: rulecfg.Matcher{Routes: []rulecfg.Route{{Path: ref.path()}}}}
-
-		switch mc.Category {
-		case "authenticator":
-			r.Execute = []config.MechanismConfig{step, {"finalizer": "view"}}
-		case "error_handler":
-			r.Execute = []config.MechanismConfig{{"authenticator": "failing"}}
-			r.ErrorHandler = []config.MechanismConfig{step}
-		case "finalizer":
-			r.Execute = []config.MechanismConfig{{"authenticator": "anon"}, {"finalizer": "view"}, step}
-		default:
-			r.Execute = []config.MechanismConfig{{"authenticator": "anon"}, step, {"finalizer": "view"}}
-		}
-
-		// each rule is its own rule set, loaded in the given order (a variant is created by WithConfig at load time)
-		if err = w.Load("src-"+ref.path(), r); err != nil {
-			return nil, fmt.Errorf("rule %s rejected: %w", ref.path(), err)
+		if err = loadRef(w, tab, ref); err != nil {
+			return nil, err
 		}
 	}
 
 	return w, nil
+}
+
+// loadRef loads the rule of one prototype or variant as its own rule set (a variant is created by WithConfig at load time).
+func loadRef(w *vkit.World, tab []mech, ref ruleRef) error {
+	mc := tab[ref.Mech]
+	step := config.MechanismConfig{mc.Category: fmt.Sprintf("m%d", ref.Mech)}
+
+	if ref.Variant >= 0 {
+		step["config"] = deepCopy(mc.Overrides[ref.Variant])
+	}
+
+	r := rulecfg.Rule{ID: ref.path(), Matcher: rulecfg.Matcher{Routes: []rulecfg.Route{{Path: ref.path()}}}}
+
+	switch mc.Category {
+	case "authenticator":
+		r.Execute = []config.MechanismConfig{step, {"finalizer": "view"}}
+	case "error_handler":
+		r.Execute = []config.MechanismConfig{{"authenticator": "failing"}}
+		r.ErrorHandler = []config.MechanismConfig{step}
+	case "finalizer":
+		r.Execute = []config.MechanismConfig{{"authenticator": "anon"}, {"finalizer": "view"}, step}
+	default:
+		r.Execute = []config.MechanismConfig{{"authenticator": "anon"}, step, {"finalizer": "view"}}
+	}
+
+	// each rule is its own rule set, loaded in the given order (a variant is created by WithConfig at load time)
+	if err := w.Load("src-"+ref.path(), r); err != nil {
+		return fmt.Errorf("rule %s rejected: %w", ref.path(), err)
+	}
+
+	return nil
 }
 
 func deepCopy(v map[string]any) map[string]any {
@@ -453,4 +478,88 @@ func TestConcurrentExecutionIsRaceFree(t *testing.T) {
 		vkit.S.Failure(map[string]any{"test": "TestConcurrentExecutionIsRaceFree", "message": diverged})
 		t.Fatalf("behaviour changed under concurrent execution: %s", diverged)
 	}
+}
+
+// snapshotOpaque: heimdall packages which are shared infrastructure, not part of a mechanism or rule.
+var snapshotOpaque = []string{"internal/cache", "internal/keyholder", "internal/watcher", "internal/otel", "x/opentelemetry", "internal/validation"}
+
+// TestExecutionDoesNotChangeMechanisms states the first sentence of the property on the objects themselves: the
+// prototypes held by the mechanism factory and the variants held by the loaded rules are snapshotted (every scalar
+// reachable through heimdall's own structs, maps and slices, including unexported fields), then every prototype and
+// variant is executed several times, and the snapshot must not have changed. The same holds for the prototypes
+// across the creation of all variants.
+func TestExecutionDoesNotChangeMechanisms(t *testing.T) {
+	tab := table()
+
+	rapid.Check(t, func(t *rapid.T) {
+		remote.Set(remoteFn)
+
+		// a generated subset of mechanisms, in generated order, with a generated order of prototype/variant rules
+		idx := rapid.SliceOfNDistinct(rapid.IntRange(0, len(tab)-1), 1, 4, rapid.ID[int]).Draw(t, "mechanisms")
+
+		var refs []ruleRef
+
+		for _, mi := range idx {
+			refs = append(refs, ruleRef{Mech: mi, Variant: -1})
+			for v := range tab[mi].Overrides {
+				refs = append(refs, ruleRef{Mech: mi, Variant: v})
+			}
+		}
+
+		refs = rapid.Permutation(refs).Draw(t, "loadOrder")
+
+		// prototypes only
+		w0, err := buildWorld(tab, nil)
+		if err != nil {
+			t.Fatalf("harness: %v", err)
+		}
+
+		protoBefore := vkit.Snapshot(w0.MF, snapshotOpaque...)
+
+		for _, ref := range refs {
+			if err = loadRef(w0, tab, ref); err != nil {
+				t.Fatalf("harness: %v", err)
+			}
+		}
+
+		if d := vkit.SnapshotDiff(protoBefore, vkit.Snapshot(w0.MF, snapshotOpaque...), 10); len(d) != 0 {
+			t.Fatalf("creating rule-specific variants changed the state of the catalogue prototypes:\n%s\nrules: %v", strings.Join(d, "\n"), describe(tab, refs))
+		}
+
+		before := vkit.Snapshot([]any{w0.MF, w0.Repo}, snapshotOpaque...)
+		rounds := rapid.IntRange(1, 3).Draw(t, "rounds")
+		execOrder := rapid.Permutation(refs).Draw(t, "execOrder")
+
+		for r := 0; r < rounds; r++ {
+			for _, ref := range execOrder {
+				_ = behaviour(w0, tab, ref, nil)
+			}
+		}
+
+		after := vkit.Snapshot([]any{w0.MF, w0.Repo}, snapshotOpaque...)
+
+		vkit.S.Eval()
+		vkit.S.Note("snapshot_scalars_last_case", int64(len(before)))
+		vkit.S.Label(fmt.Sprintf("state.mechanisms=%d", len(idx)))
+
+		for _, mi := range idx {
+			vkit.S.Label("state.mechanism=" + tab[mi].Name)
+		}
+
+		vkit.S.NonTrivial(fmt.Sprintf("state|%v|%v|%d", refs, execOrder, rounds), map[string]any{"state_snapshot": true, "rules": describe(tab, refs), "rounds": rounds, "scalars": len(before)})
+
+		if d := vkit.SnapshotDiff(before, after, 10); len(d) != 0 {
+			t.Fatalf("executing mechanisms changed the state of prototypes or variants:\n%s\nrules: %v", strings.Join(d, "\n"), describe(tab, refs))
+		}
+	})
+}
+
+func describe(tab []mech, refs []ruleRef) string {
+	var parts []string
+
+	for _, r := range refs {
+		parts = append(parts, fmt.Sprintf("%s/%d", tab[r.Mech].Name, r.Variant))
+	}
+
+	return strings.Join(parts, " ")
 }
